@@ -1,7 +1,7 @@
 """C03 - render/re-parse round trip and simplify() preserve appearance and are stable."""
 from .. import obs as O
 from .. import sgr_model as M
-from .common import Contract, ansi_values, history, run_cases, tier_sizes, safe_obs
+from .common import Contract, ansi_values, history, run_cases, tier_sizes, safe_obs, transition_values
 
 PROP = 'C03'
 RULE = ('case = (a) one round trip AnsiString(str(s)) of a reachable value with well-formed settings, compared '
@@ -11,7 +11,7 @@ RULE = ('case = (a) one round trip AnsiString(str(s)) of a reachable value with 
         'parse+render.  Non-trivial: >= 2 settings share a character; distinct = distinct (text, settings).')
 ASSUMPTIONS = ['SGR effect-group model of DESIGN 2.1', 'values with ill-formed *valid* settings or ESC in text are grey']
 MIN_EVAL = 200
-CASES = {'quick': 60, 'thorough': 1500}
+CASES = {'quick': 600, 'thorough': 9000}
 WEIGHTS = {'apply': 12, 'remove': 4, 'simplify': 3, 'query': 0.2, 'find_settings': 0.2, 'settings_at': 0.2}
 
 
@@ -140,6 +140,17 @@ def drive(ctx, mon, tier, only_case=None):
     sz = tier_sizes(tier)
 
     def body(rng, ex, case):
+        if case == 0:
+            with mon.quiet():
+                vals = list(transition_values(L, rng, ctx.shard, ctx.extra.get('nshards', 1)))
+            ctx.extra['n_transition_values'] = len(vals)
+            for v in vals:
+                roundtrip_probe(ctx, mon, v)
+                try:
+                    v.simplify()
+                except Exception:
+                    ctx.aborted['simplify-raised'] += 1
+            return
         profile = rng.choice(['wf', 'mixed', 'hostile'])
         history(L, rng, ex, rng.randint(1, sz['nops']), sz['maxlen'], profile, WEIGHTS)
         vals = ansi_values(L, ex)
